@@ -22,7 +22,7 @@ package lastgersync
 //@   ensures scanNext == ite(toBlock + 1 > old(scanNext) && fromBlock <= old(scanNext), toBlock + 1, old(scanNext))
 //@   ensures forall(k, 0, len(result), result[k] != nil)
 
-//@ func (d *downloaderPP) Download
+//@ func (d *downloaderPP) Download (d, ctx, fromBlock, downloadedCh)
 //@   props C16
 //@   requires d != nil && d.EVMDownloaderImplementation != nil
 //@   requires scanNext == fromBlock && !scanGap
@@ -45,7 +45,7 @@ package lastgersync
 //@   ensures result == nil ==> !old(gerHas)[cast(src, *gerInfoWithBlockNum).BlockNum] && gerHas == upd(old(gerHas), cast(src, *gerInfoWithBlockNum).BlockNum, true) && gerRootAt == upd(old(gerRootAt), cast(src, *gerInfoWithBlockNum).BlockNum, cast(src, *gerInfoWithBlockNum).GlobalExitRoot) && gerIdxAt == upd(old(gerIdxAt), cast(src, *gerInfoWithBlockNum).BlockNum, cast(src, *gerInfoWithBlockNum).L1InfoTreeIndex)
 //@   ensures result != nil ==> gerHas == old(gerHas) && gerRootAt == old(gerRootAt) && gerIdxAt == old(gerIdxAt)
 
-//@ func (*processor) handleGERInsertion
+//@ func (*processor) handleGERInsertion (arg0, tx, gerInfo)
 //@   props C16 C04
 //@   nocalls
 //@   allowcalls Insert Errorf
@@ -62,7 +62,7 @@ package lastgersync
 //@   ensures result1 == nil ==> forall(b, int, gerHas[b] == (old(gerHas)[b] && gerRootAt[b] != caller.event.GlobalExitRoot))
 //@   ensures result1 != nil ==> gerHas == old(gerHas)
 
-//@ func (p *processor) handleGEREvent
+//@ func (p *processor) handleGEREvent (p, tx, event)
 //@   props C16 C04
 //@   sqltext "DELETE FROM imported_global_exit_root WHERE global_exit_root = $1;"
 //@   requires tx != nil && event != nil
@@ -78,7 +78,7 @@ package lastgersync
 //@   ensures[only-the-row-of-this-block-changes] result == nil ==> forall(b, int, b != event.BlockNum ==> gerHas[b] == old(gerHas)[b])
 
 // ---- one L2 block is applied atomically (C07, C16): committed only if every statement succeeded, rolled back otherwise
-//@ func (p *processor) ProcessBlock
+//@ func (p *processor) ProcessBlock (p, ctx, block)
 //@   props C07 C16
 //@   sqltext "INSERT INTO block (num, hash) VALUES ($1, $2)"
 //@   requires p != nil && p.database != nil && p.log != nil
@@ -98,7 +98,7 @@ package lastgersync
 //@   ensures result == nil ==> exists(b, int, gerHas[b] && gerIdxAt[b] == cast(dst, *GlobalExitRootInfo).L1InfoTreeIndex && gerRootAt[b] == cast(dst, *GlobalExitRootInfo).GlobalExitRoot) && cast(dst, *GlobalExitRootInfo).L1InfoTreeIndex >= unbox(args[0], uint32) && forall(b, int, (gerHas[b] && gerIdxAt[b] >= unbox(args[0], uint32)) ==> gerIdxAt[b] >= cast(dst, *GlobalExitRootInfo).L1InfoTreeIndex)
 //@   ensures (result != nil && isErr(result, sql.ErrNoRows)) ==> forall(b, int, gerHas[b] ==> gerIdxAt[b] < unbox(args[0], uint32))
 
-//@ func (p *processor) GetFirstGERAfterL1InfoTreeIndex
+//@ func (p *processor) GetFirstGERAfterL1InfoTreeIndex (p, ctx, l1InfoTreeIndex)
 //@   props C16
 //@   sqltext "SELECT l1_info_tree_index, global_exit_root FROM imported_global_exit_root WHERE l1_info_tree_index >= $1 ORDER BY l1_info_tree_index ASC LIMIT 1;"
 //@   requires p != nil
@@ -115,7 +115,7 @@ package lastgersync
 //@   ensures result1 == nil ==> forall(b, int, gerHas[b] == (old(gerHas)[b] && b < caller.firstReorgedBlock))
 //@   ensures result1 != nil ==> gerHas == old(gerHas)
 
-//@ func (p *processor) Reorg
+//@ func (p *processor) Reorg (p, ctx, firstReorgedBlock)
 //@   props C04 C16
 //@   sqltext "DELETE FROM block WHERE num >= $1;"
 //@   requires p != nil && p.database != nil
@@ -135,7 +135,7 @@ package lastgersync
 //@   ensures gerLastBlockFaults == old(gerLastBlockFaults) + ite(result != nil && !isErr(result, sql.ErrNoRows), 1, 0)
 //@   ensures result == nil ==> gerLastBlockRow >= 0 && cast(dst, *BlockNum).Num == gerLastBlockRow
 //@   ensures (result != nil && isErr(result, sql.ErrNoRows)) ==> gerLastBlockRow == -1
-//@ func (p *processor) GetLastProcessedBlock
+//@ func (p *processor) GetLastProcessedBlock (p, ctx)
 //@   props C16
 //@   requires p != nil
 //@   modifies gerLastBlockFaults
@@ -152,7 +152,7 @@ package lastgersync
 //@   ensures result == nil ==> gerStoredLatest >= 0 && cast(dst, *GlobalExitRootInfo).L1InfoTreeIndex == gerStoredLatest
 //@   ensures (result != nil && isErr(result, sql.ErrNoRows)) ==> gerStoredLatest == -1
 //@   ensures (result != nil && !isErr(result, sql.ErrNoRows)) ==> !isErr(result, errvar("db.ErrNotFound"))
-//@ func (p *processor) getLatestL1InfoTreeIndex
+//@ func (p *processor) getLatestL1InfoTreeIndex (p)
 //@   props C16
 //@   requires p != nil
 //@   modifies nothing
@@ -178,7 +178,7 @@ package lastgersync
 //@   modifies nothing
 //@   ensures result1 == nil ==> result0 != nil && result0.GlobalExitRoot == l1GerAt(index)
 
-//@ func (d *downloaderFEP) getGERsFromIndex
+//@ func (d *downloaderFEP) getGERsFromIndex (d, ctx, fromL1InfoTreeIndex)
 //@   props C16
 //@   requires d != nil && d.l1InfoTreeSync != nil
 //@   requires 0 <= gerL1LastIndex && gerL1LastIndex < 4294967295 && fromL1InfoTreeIndex <= gerL1LastIndex + 1
@@ -215,7 +215,7 @@ package lastgersync
 //@   ensures result1 != nil ==> result0 == nil && gerLookupsOK == old(gerLookupsOK)
 //@   ensures result1 == nil ==> result0 != nil && result0.L1InfoTreeIndex == l1IndexOfGER(ger) && gerLookupsOK == old(gerLookupsOK) + 1
 
-//@ func (d *downloaderPP) buildAppender$1
+//@ func (d *downloaderPP) buildAppender$1 (b, l)
 //@   props C16 C05
 //@   requires b != nil && l2GERManager != nil
 //@   modifies b.Events, parsedRemove
@@ -223,7 +223,7 @@ package lastgersync
 //@   ensures[one-removal-event-for-the-log] result == nil ==> len(b.Events) == 1 && typeIs(b.Events[0], *Event) && cast(b.Events[0], *Event) != nil && cast(b.Events[0], *Event).GEREvent != nil && cast(b.Events[0], *Event).GERInfo == nil
 //@   ensures[the-removal-names-the-logs-root-in-this-block] result == nil ==> cast(b.Events[0], *Event).GEREvent.IsRemove && cast(b.Events[0], *Event).GEREvent.BlockNum == b.Num && cast(b.Events[0], *Event).GEREvent.GlobalExitRoot == hashOf(parsedRemove.RemovedGlobalExitRoot)
 
-//@ func (d *downloaderPP) buildAppender$2
+//@ func (d *downloaderPP) buildAppender$2 (b, l)
 //@   props C16 C05
 //@   requires b != nil && l2GERManager != nil && d != nil && d.l1InfoTreeSync != nil
 //@   modifies b.Events, parsedInsert, gerLookupsOK
@@ -244,7 +244,7 @@ package lastgersync
 //@   requires b != nil
 //@   modifies nothing
 //@   ensures (0 <= bigval(b) && bigval(b) < 115792089237316195423570985008687907853269984665640564039457584007913129639936) ==> ((bigval(b) == 0) == (result == aggkitcommon.ZeroHash))
-//@ func (d *downloaderFEP) populateGreatestInjectedGER
+//@ func (d *downloaderFEP) populateGreatestInjectedGER (d, b, gerInfos)
 //@   props C16
 //@   requires d != nil && d.l2GERManager != nil && d.rh != nil && b != nil && forall(k, 0, len(gerInfos), gerInfos[k] != nil)
 //@   modifies b.Events
@@ -264,7 +264,7 @@ package lastgersync
 // already stored (so no injected root in between is passed over; starting lower only re-examines roots), every block
 // handed on is the header of the head just waited for, carries what populateGreatestInjectedGER selected among exactly
 // those candidates, and is sent once.
-//@ func (d *downloaderFEP) Download
+//@ func (d *downloaderFEP) Download (d, ctx, fromBlock, downloadedCh)
 //@   props C16
 //@   requires d != nil && d.processor != nil && d.rh != nil && d.l1InfoTreeSync != nil && d.l2GERManager != nil && d.EVMDownloaderImplementation != nil && d.EVMDownloaderImplementation.ethClient != nil && d.EVMDownloaderImplementation.log != nil && d.EVMDownloaderImplementation.rh != nil
 //@   requires 0 <= gerL1LastIndex && gerL1LastIndex < 4294967295 && gerStoredLatest <= gerL1LastIndex
